@@ -581,7 +581,11 @@ type plainReader struct{ r *bytes.Reader }
 func (p *plainReader) Read(b []byte) (int, error) { return p.r.Read(b) }
 func (p *plainReader) ReadByte() (byte, error)    { return p.r.ReadByte() }
 
-// checkReader: the io.Reader entry points. (a) NewStream(r, len(b)) with an
+// checkReader: the io.Reader entry points. The signatures of the no-limit
+// entry point do not carry the target type: what it does with a declared
+// length happens in Stream.Bytes / Stream.Raw, independently of the type (the
+// type is in the message and the witness), and which list-shaped types a
+// seeded hostile string happens to reach varies with the seed. (a) NewStream(r, len(b)) with an
 // explicit limit must behave like DecodeBytes; (b) rlp.Decode(r) on a reader of
 // unknown length must still return a value or an error and not allocate beyond
 // what it was given.
@@ -613,7 +617,7 @@ func checkReader(r *mon.Run, tg *target, b []byte, origin string) {
 	d, panicked := minAlloc(bound, func() (int64, bool) {
 		p := reflect.New(tg.T)
 		rd := &plainReader{bytes.NewReader(b)}
-		return measureDecode(r, tsig("Decode(io.Reader,no-limit)", tg, "total"), c, func() { rlp.Decode(rd, p.Interface()) })
+		return measureDecode(r, "C08:Decode(io.Reader,no-limit):total", c, func() { rlp.Decode(rd, p.Interface()) })
 	})
 	if panicked {
 		return
@@ -621,7 +625,7 @@ func checkReader(r *mon.Run, tg *target, b []byte, origin string) {
 	cnt[c_reader_checks]++
 	r.Max("max_alloc_bytes_unlimited_reader", d)
 	if d > bound {
-		viol(r, tsig("alloc", tg, "Decode(io.Reader,no-limit):disproportionate-allocation"), c, "rlp.Decode from a %d-byte reader (%x…) into %s allocated %d bytes", len(b), clip(b), tg.Name, d)
+		viol(r, "C08:alloc:Decode(io.Reader,no-limit):disproportionate-allocation", c, "rlp.Decode from a %d-byte reader (%x…) into %s allocated %d bytes", len(b), clip(b), tg.Name, d)
 	}
 }
 
